@@ -239,6 +239,7 @@ const (
 	exReturn
 	exFallthrough
 	exPanic
+	exGoto
 )
 
 type Exit struct {
@@ -375,6 +376,8 @@ type FnCtx struct {
 	arbDepth      int
 	named         map[string]string
 	inlining      map[string]int
+	gotoTargets   map[string]bool
+	gotoActive    map[string]bool
 	splitAtCall   string
 	factSyms      [][]string
 	symFacts      map[string][]int
@@ -582,7 +585,7 @@ func seqAxioms(s Sort) []string {
 	n := sortName(s)
 	S := string(s)
 	ax := []string{
-		fmt.Sprintf("(forall ((s %s)) (! (and (>= (len_%s s) 0) (<= (len_%s s) 4611686018427387904)) :pattern ((len_%s s))))", S, n, n, n),
+		fmt.Sprintf("(forall ((s %s)) (! (and (>= (len_%s s) 0) (<= (len_%s s) 140737488355328)) :pattern ((len_%s s))))", S, n, n, n),
 		fmt.Sprintf("(= (len_%s empty_%s) 0)", n, n),
 		fmt.Sprintf("(forall ((s %s)) (! (=> (= (len_%s s) 0) (= s empty_%s)) :pattern ((len_%s s))))", S, n, n, n),
 		// sub
